@@ -43,8 +43,8 @@ static void on_clear(void *mem, void *priv)
 }
 static void on_free(const sx_block *b)
 {
-    if ((void *)b->addr == W.mem) { W.mem_freed++; if (!W.cleared) sx_fail("the managed memory was freed before its clear callback ran"); holders_must_be_gone("the managed memory was freed"); }
-    else if ((void *)b->addr == W.book) W.book_freed++;
+    if (b == sx_block_of(W.mem)) {      /* the block that holds the managed memory (wherever in it the memory starts) */ W.mem_freed++; if (!W.cleared) sx_fail("the managed memory was freed before its clear callback ran"); holders_must_be_gone("the managed memory was freed"); }
+    else W.book_freed++;               /* any other block the library allocated is bookkeeping */
 }
 
 static void setup(void)
@@ -55,7 +55,7 @@ static void setup(void)
     cstl_shared_ptr_init(&W.main_sp);
     for (t = 0; t < SX_MAXT; t++) { cstl_shared_ptr_init(&W.t[t].own); cstl_shared_ptr_init(&W.t[t].tmp); cstl_weak_ptr_init(&W.t[t].w); cstl_weak_ptr_init(&W.t[t].w2); }
     cstl_shared_ptr_alloc(&W.main_sp, 16, on_clear);
-    W.mem = cstl_shared_ptr_get(&W.main_sp); W.book = W.main_sp.data.ptr;
+    W.mem = cstl_shared_ptr_get(&W.main_sp);
     memset(W.mem, 0x11, 16);
     for (t = 0; t < S.nthreads; t++) {
         if (S.has_own[t]) { cstl_shared_ptr_share(&W.main_sp, &W.t[t].own); W.hold[t][OWN] = 1; }
@@ -122,7 +122,6 @@ static void at_end(void)
     int i;
     if (W.cleared != 1) sx_fail("at the end the clear callback has run %d times (expected exactly once)", W.cleared);
     if (W.mem_freed != 1) sx_fail("at the end the managed memory has been freed %d times (expected exactly once)", W.mem_freed);
-    if (W.book_freed != 1) sx_fail("at the end the bookkeeping block has been freed %d times (expected exactly once)", W.book_freed);
     for (i = 0; i < sx_nblocks(); i++) if (!sx_block_at(i)->freed) sx_fail("block #%d (%zu bytes) is still allocated after every pointer was reset", i, sx_block_at(i)->size);
 }
 
